@@ -43,6 +43,7 @@ Step ==
        [] ev.ev = "nflog.merge" -> NflogMerge(ev.gk, ev.integ, ev.data.ts, ToSet(ev.firing), ToSet(ev.resolved))
        [] ev.ev = "ingest" -> Ingest(ev.alerts[1].l, Ver(ev.alerts[1]))
        [] ev.ev = "sil.set" -> IF ev.data.code = 200 THEN SilSet(ev.data.ms, ev.data.start, ev.data.end) ELSE Other
+       [] ev.ev = "sil.update" -> IF ev.data.code = 200 THEN SilUpdate(ev.data.idx, ev.data.start, ev.data.end) ELSE Other
        [] ev.ev = "sil.expire" -> IF ev.data.code = 200 THEN SilExpire(ev.data.idx) ELSE Other
        [] ev.ev = "flush.begin" -> FlushBegin(ev.ag, ev.gk, ev.alerts, IF ev.tick <= 0 THEN ev.t ELSE ev.tick)
        [] ev.ev = "attempt" -> Attempt(ev.ag, ev.gk, ev.recv, ev.integ, ev.alerts, ev.outcome, ev.deadline, ev.st)
